@@ -27,11 +27,13 @@ Definition accepts (v p : Z) : bool :=
   | 2 => false
   | _ => (p =? 1) || (p =? 2) || (p =? 3)
   end.
-Definition has (h : list Z) (id : Z) : bool := existsb (Z.eqb id) h.
+(* registrations, most recent first: 1 = helper id 1 bound to h_mix, 1001 = helper id 1 bound to h_clobber *)
+Fixpoint reg1 (h : list Z) : Z :=
+  match h with [] => 0 | x :: r => if x =? 1 then 1 else if x =? 1001 then 2 else reg1 r end.
 Definition value (p : Z) (h : list Z) : Z + unit :=
   match p with 1 => inl 1 | 2 => inl 2 | 3 => inl 3 | 4 => inl 4
-  | _ => if has h 1 then inl 16 else inr tt end.                 (* h_mix 5 0 0 0 0 = 16 *)
-Definition compilable (p : Z) (h : list Z) : bool := if p =? 5 then has h 1 else negb (p =? 4).
+  | _ => match reg1 h with 1 => inl 16 | 2 => inl 6 | _ => inr tt end end.   (* h_mix 5 0 0 0 0 = 16, h_clobber 5 .. = 6 *)
+Definition compilable (p : Z) (h : list Z) : bool := if p =? 5 then negb (reg1 h =? 0) else negb (p =? 4).
 Definition hadd (h : list Z) (id : Z) : list Z := id :: h.
 
 Definition opZ := op Z Z.
@@ -56,7 +58,7 @@ HEADER = HEADER.replace('''Definition opZ := op Z Z.''', '''Definition list_eqb_
 Definition opZ := op Z Z.''').replace('\nwith_list_eqb.', '.')
 
 OPS = ['setp:P1', 'setp:P2', 'setp:PW', 'setp:PBAD', 'setp:PH', 'setv:default', 'setv:accept', 'setv:reject', 'setv:exit',
-       'helper:1:mix', 'calc:64', 'jit', 'cl', 'x', 'xj', 'xc']
+       'helper:1:mix', 'helper:1:clobber', 'calc:64', 'jit', 'cl', 'x', 'xj', 'xc']
 
 
 def op_line(o):
@@ -73,7 +75,7 @@ def op_term(o):
     if k[0] == 'setv':
         return '(OSetVerifier Z Z %d)' % VCODE[k[1]]
     if k[0] == 'helper':
-        return '(ORegisterHelper Z Z %s)' % k[1]
+        return '(ORegisterHelper Z Z %s)' % (k[1] if k[2] == 'mix' else '1001')
     return {'calc': '(OSetCalc Z Z)', 'jit': '(OJitCompile Z Z)', 'cl': '(OCraneliftCompile Z Z)', 'x': '(OExec Z Z)',
             'xj': '(OExecJit Z Z)', 'xc': '(OExecCranelift Z Z)'}[k[0]]
 
@@ -108,6 +110,18 @@ def run(chk):
             n = 3 + rng.below(10)
             hists.append((rng.choice(inits), [rng.choice(OPS) for _ in range(n)]))
         kinds = ['mbuff', 'raw', 'nodata', 'fixed']
+        # directed: compiling again after something changed must pick the change up (helper re-bound, program reloaded), on every kind
+        directed = []
+        for comp, ex in (('jit', 'xj'), ('cl', 'xc')):
+            for a, b in (('mix', 'clobber'), ('clobber', 'mix')):
+                directed.append(['setp:PH', 'helper:1:' + a, comp, ex, 'helper:1:' + b, ex, comp, ex, 'x'])
+                directed.append(['helper:1:' + a, 'setp:PH', comp, 'helper:1:' + b, comp, ex, 'setp:P2', ex, comp, ex])
+            directed.append(['setp:P1', comp, ex, comp, ex, 'setp:P2', comp, comp, ex, 'x'])
+            directed.append([comp, 'setp:PH', comp, 'helper:1:mix', comp, ex, comp, ex])
+        nd = len(hists)
+        for h in directed:
+            for kd in kinds:
+                hists.append(('none', h))
         lines, metas = [], []
         for k, (init, h) in enumerate(hists):
             kind = kinds[k % 4] if len(h) > 2 else 'mbuff'
@@ -149,7 +163,7 @@ def run(chk):
                                'meaning': 'a set_program call that failed changed the behaviour of the fixed-metadata VM'})
         chk.cov['evaluations'] = len(lines) + 3
         chk.cov['distinct_nontrivial'] = len({l for l in lines})
-        chk.cov['rule'] = ('all histories of length <= %d over' % (4 if thorough else 2) + ' a 16-operation alphabet from 4 initial programs (exhaustive), plus seeded random '
+        chk.cov['rule'] = ('all histories of length <= %d over' % (4 if thorough else 2) + ' a 17-operation alphabet from 4 initial programs (exhaustive), plus seeded random '
                            'histories of length 3..12 over the 4 VM kinds; verifier menu {default, accept-all, reject-all, ends-in-exit}, program menu '
                            '{valid x2, valid only for other verifiers x2, needs a helper}; every answer of every call is compared; distinct = distinct history')
         chk.cov['input_distribution'] = {'histories': len(lines), 'exhaustive_up_to_length': 4 if thorough else 2}
